@@ -16,7 +16,7 @@ variable {K : Type} [Field K]
 theorem chain2 (M1 M2 : Mat K) (x cp : Tensor K) {A B C : ℕ} (hs : x.shape = [A, B, C])
     (h : chain [M1, M2] x 2 = .ok cp) :
     (∀ r < M1.size, (M1.getD r #[]).size = B) ∧ (∀ r < M2.size, (M2.getD r #[]).size = A) ∧
-    cp.shape = [M2.size, M1.size, C] ∧
+    cp.shape = [M2.size, M1.size, C] ∧ cp.data.size = M2.size * M1.size * C ∧
     ∀ r2 < M2.size, ∀ r1 < M1.size, ∀ k < C,
       cp.entry3 M1.size C r2 r1 k =
         ∑ i ∈ range A, M2.get r2 i * ∑ j ∈ range B, M1.get r1 j * x.entry3 B C i j k := by
@@ -32,7 +32,7 @@ theorem chain2 (M1 M2 : Mat K) (x cp : Tensor K) {A B C : ℕ} (hs : x.shape = [
       obtain ⟨hsh2, hrow2, hent2⟩ := tensordot3 M2 R1 R2 hsh1 hR2
       have : R2 = cp := by cases h; rfl
       subst this
-      refine ⟨hrow1, hrow2, hsh2, fun r2 h2 r1 h1 k hk => ?_⟩
+      refine ⟨hrow1, hrow2, hsh2, tensordot3_size M2 R1 R2 hsh1 hR2, fun r2 h2 r1 h1 k hk => ?_⟩
       rw [hent2 r2 h2 r1 h1 k hk]
       exact sum_congr rfl (fun i hi => by rw [hent1 r1 h1 i (mem_range.mp hi) k hk])
 
@@ -69,6 +69,7 @@ theorem interpolate_surface_aux (bu bv : Basis K) (tol : K) (tu tv : List K)
     (h : chain [iv, iu] x' 2 = .ok cp) :
     ∃ (x' : Tensor K) (d : ℕ), gridInput [bu, bv] x = .ok x' ∧ x'.data = x.data ∧
       x'.shape = [tu.length, tv.length, d] ∧ cp.shape = [tu.length, tv.length, d] ∧
+      cp.data.size = tu.length * tv.length * d ∧
       tu.length = bu.numFunctions ∧ tv.length = bv.numFunctions ∧
       ∀ i < tu.length, ∀ j < tv.length, ∀ k < d,
         (Tensor.applyAxis (colloc bu tol tu 0) (Tensor.applyAxis (colloc bv tol tv 0) cp 1) 0).entry3 tv.length d i j k
@@ -81,7 +82,7 @@ theorem interpolate_surface_aux (bu bv : Basis K) (tol : K) (tu tv : List K)
   obtain ⟨hivS, hivC⟩ := invC_shape hiv (by rw [hNv]; exact n1pos)
   rw [hNu] at hiuS hiuC
   rw [hNv] at hivS hivC
-  obtain ⟨hr1, hr2, hcp, hent⟩ := chain2 iv iu x' cp hsh h
+  obtain ⟨hr1, hr2, hcp, hcpsz, hent⟩ := chain2 iv iu x' cp hsh h
   have hB : B = tv.length := by
     have := hr1 0 (by rw [hivS]; exact n1pos)
     rw [← this]; exact hivC
@@ -89,7 +90,7 @@ theorem interpolate_surface_aux (bu bv : Basis K) (tol : K) (tu tv : List K)
     have := hr2 0 (by rw [hiuS]; exact n0pos)
     rw [← this]; exact hiuC
   subst hA hB
-  rw [hiuS, hivS] at hcp hent
+  rw [hiuS, hivS] at hcp hent hcpsz
   have hnu : tu.length = bu.numFunctions := by
     have := (invC_ok hiu).1 0 (by rw [hNu]; exact n0pos)
     rw [row_colloc bu tol tu 0 0 n0pos, size_evaluate_c14, hNu] at this
@@ -98,7 +99,7 @@ theorem interpolate_surface_aux (bu bv : Basis K) (tol : K) (tu tv : List K)
     have := (invC_ok hiv).1 0 (by rw [hNv]; exact n1pos)
     rw [row_colloc bv tol tv 0 0 n1pos, size_evaluate_c14, hNv] at this
     exact this.symm
-  refine ⟨x', C, hx', hdata, hsh, hcp, hnu, hnv, fun i hi j hj k hk => ?_⟩
+  refine ⟨x', C, hx', hdata, hsh, hcp, hcpsz, hnu, hnv, fun i hi j hj k hk => ?_⟩
   obtain ⟨hs1, he1⟩ := Tensor.applyAxis3_1_c14 (colloc bv tol tv 0) cp hcp
   rw [hNv] at hs1 he1
   obtain ⟨_, he0⟩ := Tensor.applyAxis3_0_c14 (colloc bu tol tu 0) _ hs1
@@ -141,7 +142,7 @@ theorem chain3 (M1 M2 M3 : Mat K) (x cp : Tensor K) {A B C D : ℕ} (hs : x.shap
     (h : chain [M1, M2, M3] x 3 = .ok cp) :
     (∀ r < M1.size, (M1.getD r #[]).size = C) ∧ (∀ r < M2.size, (M2.getD r #[]).size = B) ∧
     (∀ r < M3.size, (M3.getD r #[]).size = A) ∧
-    cp.shape = [M3.size, M2.size, M1.size, D] ∧
+    cp.shape = [M3.size, M2.size, M1.size, D] ∧ cp.data.size = M3.size * M2.size * M1.size * D ∧
     ∀ r3 < M3.size, ∀ r2 < M2.size, ∀ r1 < M1.size, ∀ l < D,
       cp.entry4 M2.size M1.size D r3 r2 r1 l =
         ∑ i ∈ range A, M3.get r3 i * ∑ j ∈ range B, M2.get r2 j * ∑ k ∈ range C, M1.get r1 k * x.entry4 B C D i j k l := by
@@ -161,7 +162,7 @@ theorem chain3 (M1 M2 M3 : Mat K) (x cp : Tensor K) {A B C D : ℕ} (hs : x.shap
         obtain ⟨hsh3, hrow3, hent3⟩ := tensordot4 M3 R2 R3 hsh2 hR3
         have : R3 = cp := by cases h; rfl
         subst this
-        refine ⟨hrow1, hrow2, hrow3, hsh3, fun r3 h3 r2 h2 r1 h1 l hl => ?_⟩
+        refine ⟨hrow1, hrow2, hrow3, hsh3, tensordot4_size M3 R2 R3 hsh2 hR3, fun r3 h3 r2 h2 r1 h1 l hl => ?_⟩
         rw [hent3 r3 h3 r2 h2 r1 h1 l hl]
         apply sum_congr rfl
         intro i hi
@@ -199,6 +200,7 @@ theorem interpolate_volume_aux (bu bv bw : Basis K) (tol : K) (tu tv tw : List K
     (h : chain [iw, iv, iu] x' 3 = .ok cp) :
     ∃ (x' : Tensor K) (d : ℕ), gridInput [bu, bv, bw] x = .ok x' ∧ x'.data = x.data ∧
       x'.shape = [tu.length, tv.length, tw.length, d] ∧ cp.shape = [tu.length, tv.length, tw.length, d] ∧
+      cp.data.size = tu.length * tv.length * tw.length * d ∧
       tu.length = bu.numFunctions ∧ tv.length = bv.numFunctions ∧ tw.length = bw.numFunctions ∧
       ∀ i < tu.length, ∀ j < tv.length, ∀ k < tw.length, ∀ l < d,
         (Tensor.applyAxis (colloc bu tol tu 0) (Tensor.applyAxis (colloc bv tol tv 0)
@@ -216,7 +218,7 @@ theorem interpolate_volume_aux (bu bv bw : Basis K) (tol : K) (tu tv tw : List K
   rw [hNu] at hiuS hiuC
   rw [hNv] at hivS hivC
   rw [hNw] at hiwS hiwC
-  obtain ⟨hr1, hr2, hr3, hcp, hent⟩ := chain3 iw iv iu x' cp hsh h
+  obtain ⟨hr1, hr2, hr3, hcp, hcpsz, hent⟩ := chain3 iw iv iu x' cp hsh h
   have hC : C = tw.length := by
     have := hr1 0 (by rw [hiwS]; exact n2pos)
     rw [← this]; exact hiwC
@@ -227,7 +229,7 @@ theorem interpolate_volume_aux (bu bv bw : Basis K) (tol : K) (tu tv tw : List K
     have := hr3 0 (by rw [hiuS]; exact n0pos)
     rw [← this]; exact hiuC
   subst hA hB hC
-  rw [hiuS, hivS, hiwS] at hcp hent
+  rw [hiuS, hivS, hiwS] at hcp hent hcpsz
   have hnu : tu.length = bu.numFunctions := by
     have := (invC_ok hiu).1 0 (by rw [hNu]; exact n0pos)
     rw [row_colloc bu tol tu 0 0 n0pos, size_evaluate_c14, hNu] at this
@@ -240,7 +242,7 @@ theorem interpolate_volume_aux (bu bv bw : Basis K) (tol : K) (tu tv tw : List K
     have := (invC_ok hiw).1 0 (by rw [hNw]; exact n2pos)
     rw [row_colloc bw tol tw 0 0 n2pos, size_evaluate_c14, hNw] at this
     exact this.symm
-  refine ⟨x', D, hx', hdata, hsh, hcp, hnu, hnv, hnw, fun i hi j hj k hk l hl => ?_⟩
+  refine ⟨x', D, hx', hdata, hsh, hcp, hcpsz, hnu, hnv, hnw, fun i hi j hj k hk l hl => ?_⟩
   have cancelU := fun (p i' : ℕ) (hp : p < tu.length) (hi' : i' < tu.length) => by
     have := invC_entries hiu p i' (by rw [hNu]; exact hp) (by rw [hNu]; exact hi')
     rw [hNu] at this; exact this
